@@ -165,7 +165,10 @@ type BootstrapAgent struct {
 
 func (a *BootstrapAgent) Step(s *Sim) {
 	r := a.rng
-	if a.created < len(a.plans) && s.Height >= 1 {
+	// the last planned pool may be held back (config LatePoolAt): pools that appear in the middle of
+	// a history meet state that was prepared for them in advance (incentives, asset-profile entries)
+	late := s.Cfg.LatePoolAt > 0 && a.created == len(a.plans)-1 && len(a.plans) > 2 && s.Height < s.Cfg.LatePoolAt
+	if a.created < len(a.plans) && s.Height >= 1 && !late {
 		p := a.plans[a.created]
 		a.created++
 		creator := s.W.Users[a.created%min(4, len(s.W.Users))]
